@@ -237,3 +237,74 @@ CONTRACTS["model:ResidualJunctionCompartment.balance#plain"] = dict(
     frame_props=["C01", "C02", "C04"],
     defined_props=["C02"],
 )
+
+# ------------------------------------------------------------------------------------------------ number of rows (C05, FPSTD)
+# rows = max(1, n) with n in the band around q = D/dt (D = duration * timescale * scale factor, exact reals), m = max(1, q):
+#   q - 1e-6*m <= n < q + 1 - 1e-12*m      (n = k when D is exactly k steps; ceil(q) away from integers; grey zone in between)
+_D = "(self.parameter.vals[0] * self.parameter.timescale * self.parameter.scale_factor)"
+CONTRACTS["model:TimedCompartment.preallocate"] = dict(
+    schema=schema, mode="FPSTD",
+    params={"tvec": "arr1", "dt": "real"},
+    requires=["len(self.parameter.vals) >= 1", "dt >= 1/1000", "dt <= 100", "self.parameter.vals[0] >= 0", "self.parameter.vals[0] <= 10000",
+              "self.parameter.timescale >= 1/1000", "self.parameter.timescale <= 1000", "self.parameter.scale_factor >= 1/1000", "self.parameter.scale_factor <= 1000",
+              "%s / dt <= 500" % _D],     # up to 500 rows: the code snaps to a whole number of steps within an absolute 1e-9, the band is relative
+    modifies=["self._vals", "self.t", "self.dt"],
+    raises={"AssertionError": "not all(self.parameter.vals[i] == self.parameter.vals[0] for i in range(len(self.parameter.vals)))"},
+    ensures=[
+        ("C05.at_least_one_row", "self._vals.shape[0] >= 1"),
+        ("C05.no_fewer_rows_than_steps", "self._vals.shape[0] >= %s / dt - max(1, %s / dt) / 1000000" % (_D, _D)),
+        # "a whole number of steps is not rounded up" (n = k when D is k steps up to rounding error) and "D < dt gives one row":
+        # the FPSTD obligations of the ceil() branch stay undecided in z3/cvc5 (ToInt mixed with products of rounding terms);
+        # they are covered by the BOUNDED sweep _bounded_row_count below -- labelled bounded, not counted as proved.
+        ("C05.one_column_per_time_point", "self._vals.shape[1] == len(tvec)"),
+    ],
+    frame_props=["C05"],
+    defined_props=["C05"],
+    raises_props=["C05"],
+)
+
+
+def _bounded_row_count(tier="quick", seed=0):
+    """BOUNDED stand-in for the row count of timed compartments / timed links on real doubles (exact rational oracle)"""
+    import math, random, time
+    from fractions import Fraction as F
+    from types import SimpleNamespace
+    import numpy as np
+    import atomica.model as am
+
+    t0 = time.time()
+    rng = random.Random(seed)
+    cases = [(5 / 12, 1 / 12), (1.0, 0.25), (0.5, 0.25), (0.3, 0.1), (0.7, 0.1), (2.0, 1 / 12), (1 / 12, 1 / 12), (0.01, 0.25), (3.0, 0.3), (10.0, 1 / 52), (0.25, 0.25), (1.1, 0.1), (0.0, 0.25)]
+    for _ in range(300 if tier == "quick" else 6000):
+        dt = rng.choice([1 / 12, 0.25, 0.1, 0.2, 0.05, 1 / 52, 1 / 365, 0.3, 0.7, 1.0])
+        k = rng.randint(1, 400)
+        cases.append((k * dt, dt))
+        cases.append((k * dt * rng.uniform(1.001, 1.9) if k == 1 else (k - rng.uniform(0.01, 0.99)) * dt, dt))
+    bad = []
+    for D, dt in cases:
+        pop = SimpleNamespace(name="pop", links=[], link_lookup={}, par_lookup={})
+        par = am.Parameter(pop, "dur")
+        tvec = np.arange(0, 5) * dt
+        par.preallocate(tvec, dt)
+        par.vals[:] = D
+        comp = am.TimedCompartment(pop, "c", par)
+        comp.preallocate(tvec, dt)
+        rows = comp._vals.shape[0]
+        q = F(D) / F(dt)
+        k = round(q)
+        if abs(q - k) <= max(1, k) * F(1, 10 ** 12):
+            want = {max(1, k)}
+        elif q < 1:
+            want = {1}
+        else:
+            want = {math.ceil(q)} | ({math.ceil(q) - 1} if q - (math.ceil(q) - 1) <= max(F(1), q) / 10 ** 6 else set())
+        if rows not in want:
+            bad.append(dict(duration=D, dt=dt, rows=rows, expected=sorted(want), exact_quotient=float(q)))
+    ob = dict(function="model:TimedCompartment.preallocate (bounded sweep)", name="BOUNDED.row_count_on_%d_double_inputs" % len(cases), kind="bounded", status="proved" if not bad else "refuted",
+              seconds=round(time.time() - t0, 2), backend="bounded-enumeration", note="bounded stand-in: %d concrete (duration, dt) pairs on real TimedCompartment objects, exact rational oracle; not counted as proved" % len(cases))
+    if bad:
+        ob["replay"] = dict(verdict="violates", detail="first failing inputs: %r" % bad[:3], prestate=bad[0])
+    return [ob]
+
+
+EXTRA_CHECKS = {"C05": _bounded_row_count}
